@@ -309,6 +309,14 @@ func (q qiDecoder) value(v reflect.Value) error {
 		return fmt.Errorf("cannot decode interface: %v of %v (%v of %v)",
 			v, v.Type(), i, reflect.ValueOf(i))
 	case reflect.Ptr:
+		if v.IsNil() {
+			// the encoder writes what a pointer points to: there
+			// must be something to read it into.
+			if !v.CanSet() {
+				return fmt.Errorf("cannot decode into a nil %v", v.Type())
+			}
+			v.Set(reflect.New(v.Type().Elem()))
+		}
 		v = v.Elem()
 		if v.Kind() == reflect.Slice {
 			return q.sliceValue(v)
